@@ -313,6 +313,9 @@ static void arena_init(void) {
   }
 }
 int alloc_in_arena(const void* p) { return (uint64_t)p >= ARENA_BASE && (uint64_t)p < ARENA_BASE + ARENA_SIZE; }
+static size_t arena_off_at_run_start; /* (the batch process allocates between runs: nothing in a run may depend on absolute addresses) */
+static void* recent_blocks[256]; /* small blocks handed out lately (stale contents of recycled memory, below) */
+static unsigned n_recent_blocks;
 static void* a_alloc(size_t n, size_t align, int isolate, int countable) {
   if (align < 16) align = 16;
   a_lock();
@@ -344,6 +347,7 @@ static void* a_alloc(size_t n, size_t align, int isolate, int countable) {
   ahdr_t* h = (ahdr_t*)(arena + p) - 1;
   h->size = n;
   h->magic = AMAGIC;
+  if (n <= 4096) recent_blocks[n_recent_blocks++ & 255] = arena + p;
   a_unlock();
   return arena + p;
 }
@@ -353,9 +357,22 @@ static void* a_alloc(size_t n, size_t align, int isolate, int countable) {
 static void* a_alloc_junk(size_t n, size_t align) {
   void* p = a_alloc(n, align, 0, 1);
   if (p && sim_active) {
-    static const unsigned char pat[8] = {0x00, 0xA5, 0xA5, 0xA5, 0xFF, 0xA5, 0x01, 0x00};
+    static const unsigned char pat[8] = {0x00, 0xA5, 0xA5, 0x5A, 0xFF, 0xA5, 0x01, 0x00};
     const unsigned char b = pat[(run_seed * 0x9E3779B97F4A7C15ull) >> 61];
-    if (b) memset(p, b, n);
+    if (b == 0x5A) {
+      /* one run in eight: what a recycled chunk really holds - pointers to objects of the program that are
+       * still in use (here: addresses of small blocks handed out lately), not a recognisable pattern */
+      a_lock();
+      const unsigned cnt = n_recent_blocks < 256 ? n_recent_blocks : 256;
+      uint64_t x = run_seed ^ ((uint64_t)((char*)p - arena - arena_off_at_run_start) * 0x9E3779B97F4A7C15ull);
+      for (size_t w = 0; cnt && w + 8 <= n; w += 8) {
+        x = x * 6364136223846793005ull + 1442695040888963407ull;
+        void* v = recent_blocks[(x >> 33) % cnt];
+        memcpy((char*)p + w, &v, 8);
+      }
+      a_unlock();
+    } else if (b)
+      memset(p, b, n);
   }
   return p;
 }
@@ -376,6 +393,7 @@ void* sim_alloc_high(size_t n) {
   ahdr_t* h = (ahdr_t*)(arena + p) - 1;
   h->size = n;
   h->magic = AMAGIC;
+  if (n <= 4096) recent_blocks[n_recent_blocks++ & 255] = arena + p;
   a_unlock();
   return arena + p;
 }
@@ -1159,6 +1177,13 @@ void __tsan_switch_to_fiber(void* f, unsigned fl) {
     if (sim_hook_context_switch) sim_hook_context_switch();
   }
 }
+/* the ucontext back-end of fiber_context.c has no annotation at its switch: builds that use it wrap swapcontext */
+struct ucontext_t;
+extern int __real_swapcontext(struct ucontext_t*, const struct ucontext_t*) __attribute__((weak));
+int __wrap_swapcontext(struct ucontext_t* o, const struct ucontext_t* n) {
+  __tsan_switch_to_fiber(NULL, 0);
+  return __real_swapcontext(o, n);
+}
 /* ---- optional x86-TSO store buffering for atomic stores weaker than seq_cst (DESIGN 2.11) ----
  * Every behaviour this produces is allowed by x86-TSO (it is TSO with extra flushes: before every plain
  * store, RMW, fence, seq_cst store, blocking call, and at random scheduling points). */
@@ -1516,7 +1541,9 @@ void ghost_switch(void) {
     sim_violation("C01-resumed-while-running", "fiber #%d is executing on thread %d and is resumed on thread %d before its suspension completed", in, G[in].on, me);
   if (G[in].g == G_DEAD) sim_violation("C01-resumed-dead", "fiber #%d resumed after its control block was freed", in);
   if (!sim_mem_is_live(n)) sim_violation("C01-resumed-freed-block", "fiber #%d control block is not live memory", in);
-  if (G[in].stack && !sim_mem_is_live(G[in].stack)) sim_violation("C01-resumed-freed-stack", "fiber #%d stack is not live memory", in);
+  /* (stacks that are mappings of their own - the mmap-stack build - are outside the checked heap: resuming on
+   * one that was unmapped faults) */
+  if (G[in].stack && alloc_in_arena(G[in].stack) && !sim_mem_is_live(G[in].stack)) sim_violation("C01-resumed-freed-stack", "fiber #%d stack is not live memory", in);
   if (G[in].g == G_SAVED && G[in].on != me) stat_migr++;
   if (m) G[in].maint = 1;
   if (expect_next[me]) {
@@ -1953,6 +1980,8 @@ static int load_replay(const char* path) {
 /* ------------------------------------------------------------------ */
 static void child_run(int fd) {
   result_fd = fd;
+  n_recent_blocks = 0; /* (what the batch process allocated before this run is not part of the run) */
+  arena_off_at_run_start = arena_off;
   dec_rec = sim_internal_alloc(sizeof(dec_t) * MAXDEC);
   fdec_rec = sim_internal_alloc(sizeof(fdec_t) * MAXFDEC);
   rng_seed(&R_sched, sched_seed, 1);
